@@ -130,7 +130,7 @@ def run(ctx):
     rp = hsr.first_param()
     # the handler must be registered with addBoth on the produce request (gets list or Failure)
     regs = []
-    for f in (sreq, hsr) + tuple(hsr.nested.values()):
+    for f in (sreq, hsr) + tuple(role_candidates(ctx, hsr)):
         for reg in registrations(f, prog):
             if reg["cb"] is not None and unparse(reg["cb"]) == "self." + hsr.name:
                 regs.append((f, reg))
@@ -138,7 +138,7 @@ def run(ctx):
     ka = K.KindAnalysis(
         ctx, hsr, {rp: K.fs(K.mk_list(K.fs(K.RESP)), K.NONE, K.FAILURE)},
         guard_tags=[("self.req_acks == PRODUCER_ACK_NOT_REQUIRED", "acks_not_required")],
-        subscript_summary=sub_summary)
+        subscript_summary=sub_summary, extra_funcs=[g_ for g_ in role_candidates(ctx, hsr) if g_.parent is None])
     # _send_requests: first param is a DeferredList result iff the preceding stage returns DeferredList(...)
     sb = ctx.func(PROD + "._send_batch")
     dl_fed = False
@@ -178,7 +178,7 @@ def run(ctx):
     r = ctx.rule("R2", "on the success arm the Deferred-table key is built from the delivered response itself", 1,
                  "A")
     cf = ctx.cfg(hsr)
-    deliver = hsr.nested.get("_deliver_result")
+    deliver = producer_roles(ctx)["deliver"]
     need(deliver is not None, "nested _deliver_result missing")
     succ_calls = []
     st_in = ka.states_in[hsr.qname]
@@ -289,7 +289,7 @@ def run(ctx):
     # ---- R5 exhaustion arm
     r = ctx.rule("R5", "attempt exhaustion delivers to the Deferreds of every failed payload and schedules nothing",
                  2, "B")
-    crp = hsr.nested.get("_check_retry_payloads")
+    crp = producer_roles(ctx)["check_retry"]
     need(crp is not None, "nested _check_retry_payloads missing")
     cc = ctx.cfg(crp)
     fc = ctx.facts(crp)
